@@ -368,4 +368,349 @@ theorem commonKmer_shared {c : Cfg} (w : WF c) (i lo hi m qi : Nat) (st : St) (p
     exact this hmod
   · rw [if_neg hprev]; exact inv1
 
+/-! ### all common k-mers of one query position -/
+
+theorem fold_pres {c : Cfg} (w : WF c) (i lo hi m qi : Nat) (p r : Nat) (ts : List Nat) (st : St)
+    (hts : ∀ t ∈ ts, t < c.tlen)
+    (inv : MInv c i lo hi m qi st p r)
+    (hthr : (m : Int) ≥ c.minKmers) (hD : (hi : Int) - lo ≤ c.maxKmerDist)
+    (hband : i * c.off ≤ c.tlen + lo) (hlohi : lo ≤ hi) (hqi : qi = (i + 1) * c.off + c.maxError - 1)
+    (hrle : r ≤ m) (h1 : 1 ≤ r → lo ≤ p) (h2 : r < m → p ≤ hi) (h3 : r = m → hi ≤ p) :
+    MInv c i lo hi m qi (ts.foldl (fun s t => commonKmer c s t p) st) p r := by
+  induction ts generalizing st with
+  | nil => exact inv
+  | cons t ts ih =>
+    rw [List.foldl_cons]
+    exact ih _ (fun x hx => hts x (by simp [hx]))
+      (commonKmer_pres w i lo hi m qi st p r t (hts t (by simp)) inv hthr hD hband hlohi hqi hrle h1 h2 h3)
+
+/-- a query position that carries a shared k-mer of the match (target position `t ∈ ts`) -/
+theorem fold_shared {c : Cfg} (w : WF c) (i lo hi m qi : Nat) (p r : Nat) (ts : List Nat) (st : St) (t : Nat)
+    (hts : ∀ t ∈ ts, t < c.tlen) (hmem : t ∈ ts)
+    (inv : MInv c i lo hi m qi st p r)
+    (hthr : (m : Int) ≥ c.minKmers) (hD : (hi : Int) - lo ≤ c.maxKmerDist)
+    (hband : i * c.off ≤ c.tlen + lo) (hlohi : lo ≤ hi) (hqi : qi = (i + 1) * c.off + c.maxError - 1)
+    (hcut : selfCut c t p = false) (hti : tubeIndex c (diagIndex c t p) = i)
+    (hr : r < m) (h0 : r = 0 → p = lo) (hlast : r + 1 = m → p = hi) (hlo : lo ≤ p) (hhi : p ≤ hi) :
+    MInv c i lo hi m qi (ts.foldl (fun s t => commonKmer c s t p) st) p (r + 1) := by
+  obtain ⟨ts₁, ts₂, rfl⟩ := List.append_of_mem hmem
+  rw [List.foldl_append, List.foldl_cons]
+  have inv1 := fold_pres w i lo hi m qi p r ts₁ st (fun x hx => hts x (by simp [hx])) inv hthr hD hband hlohi hqi
+    (by omega) (fun _ => hlo) (fun _ => hhi) (fun h => by omega)
+  have inv2 := commonKmer_shared w i lo hi m qi _ p r t (hts t (by simp)) inv1 hthr hD hband hlohi hqi hcut hti
+    hr h0 hlast hlo hhi
+  exact fold_pres w i lo hi m qi p (r + 1) ts₂ _ (fun x hx => hts x (by simp [hx])) inv2 hthr hD hband hlohi hqi
+    (by omega) (fun _ => hlo) (fun _ => hhi) (fun h => by have := hlast h; omega)
+
+/-! ### retirement by a tick -/
+
+theorem retire_cases (c : Cfg) (st : St) (j : Nat) (hsz : st.tubes.size = c.cap) (hcap : 0 < c.cap) :
+    let t := getTube st (j % c.cap)
+    let st' := retire c st (j : Int)
+    st'.panic = st.panic ∧ st'.tubes.size = st.tubes.size ∧ (∀ x ∈ st.hits, x ∈ st'.hits) ∧
+    (∀ slot, slot ≠ j % c.cap → getTube st' slot = getTube st slot) ∧
+    getTube st' (j % c.cap) = { t with count := 0 } ∧
+    (((t.count : Int) ≥ c.minKmers ∧ st'.hits = (addHit c st (j : Int) t.qLo t.qHi).hits) ∨
+     (¬ (t.count : Int) ≥ c.minKmers ∧ st'.hits = st.hits)) := by
+  have hslot : j % c.cap < st.tubes.size := by rw [hsz]; exact Nat.mod_lt _ hcap
+  have hmod : (j : Int).tmod (c.cap : Int) = ((j % c.cap : Nat) : Int) := rfl
+  simp only []
+  unfold retire
+  simp only [hmod]
+  rw [if_neg (by omega), Int.toNat_natCast]
+  by_cases hthr : ((getTube st (j % c.cap)).count : Int) ≥ c.minKmers
+  · rw [if_pos hthr]
+    refine ⟨rfl, by simp [addHit_tubes], fun x hx => addHit_hits c st _ _ _ x hx, ?_, ?_, Or.inl ⟨hthr, rfl⟩⟩
+    · intro slot hne; rw [getTube_set, if_neg (fun h => hne h.1.symm)]; rfl
+    · rw [getTube_set, if_pos ⟨rfl, by rw [addHit_tubes]; exact hslot⟩]
+  · rw [if_neg hthr]
+    refine ⟨rfl, by simp, fun x hx => hx, ?_, ?_, Or.inr ⟨hthr, rfl⟩⟩
+    · intro slot hne; rw [getTube_set, if_neg (fun h => hne h.1.symm)]
+    · rw [getTube_set, if_pos ⟨rfl, hslot⟩]
+
+/-- the tick at query position `p = (j+1)·off + e - 1` retires tube `j`; afterwards the scan moves
+    on to position `p + 1` -/
+theorem retire_step {c : Cfg} (w : WF c) (i lo hi m qi : Nat) (st : St) (p r j : Nat)
+    (inv : MInv c i lo hi m qi st p r) (hp : p = (j + 1) * c.off + c.maxError - 1)
+    (hthr : (m : Int) ≥ c.minKmers) (hm1 : 1 ≤ m)
+    (hband : i * c.off ≤ c.tlen + lo) (hlohi : lo ≤ hi) (hqi : qi = (i + 1) * c.off + c.maxError - 1)
+    (hhiq : hi ≤ qi) (hr_all : hi ≤ p → r = m) (hr_none : 1 ≤ r → lo ≤ p) :
+    MInv c i lo hi m qi (retire c st (j : Int)) (p + 1) r := by
+  have hcap := w.cap_pos
+  have hoff := w.off_pos
+  obtain ⟨hpan, hsize, hhits, hframe, hnew, hem⟩ := retire_cases c st j inv.size hcap
+  have hvj : 1 ≤ (j + 1) * c.off := Nat.mul_pos (by omega) hoff
+  have hvi : 1 ≤ (i + 1) * c.off := Nat.mul_pos (by omega) hoff
+  have hdone : Done c i lo hi st → Done c i lo hi (retire c st (j : Int)) := Done_mono c i lo hi _ _ hhits
+  by_cases hslot : j % c.cap = i % c.cap
+  · rw [hslot] at hnew hem
+    have hwf : (getTube (retire c st (j : Int)) (i % c.cap)).count > 0 →
+        (getTube (retire c st (j : Int)) (i % c.cap)).qLo ≤ (getTube (retire c st (j : Int)) (i % c.cap)).qHi ∧
+        (getTube (retire c st (j : Int)) (i % c.cap)).qHi ≤ p + 1 := by
+      intro h; rw [hnew] at h; simp at h
+    by_cases hji : j = i
+    · -- the match's own tube is retired: its run is complete and is emitted under its own index
+      subst hji
+      have hpq : p = qi := by omega
+      have hrm : r = m := hr_all (by omega)
+      have hd : Done c j lo hi (retire c st (j : Int)) := by
+        rcases inv.run (by omega) with hd | ⟨hc, hqlo, _, hlast⟩
+        · exact hdone hd
+        · rcases hem with ⟨_, hh⟩ | ⟨hno, _⟩
+          · obtain ⟨x, hx, hxd⟩ := addHit_done c j lo hi st _ _ hqlo (hlast hrm)
+            exact ⟨x, by rw [hh]; exact hx, hxd⟩
+          · omega
+      exact ⟨by rw [hpan]; exact inv.nopanic, by rw [hsize]; exact inv.size, hwf, fun _ => Or.inl hd, Or.inl hd⟩
+    · obtain ⟨hc1, _⟩ := w.cap_mul
+      rcases mod_eq_far hslot hji with h | h
+      · -- an earlier tube of the same slot: the match has not begun
+        have h1 : (j + c.cap) * c.off ≤ i * c.off := Nat.mul_le_mul_right _ h
+        have h2 : (j + c.cap) * c.off = (j + 1) * c.off + (c.cap - 1) * c.off := by
+          rw [← Nat.add_mul]; congr 1; omega
+        have hplo : p < lo := by omega
+        have hr0 : r = 0 := by
+          apply Classical.byContradiction; intro hne; have := hr_none (by omega); omega
+        exact ⟨by rw [hpan]; exact inv.nopanic, by rw [hsize]; exact inv.size, hwf,
+          fun h => by omega, Or.inr (by omega)⟩
+      · -- a later tube of the same slot: tube i was retired long ago
+        have h1 : (i + 1) * c.off ≤ (j + 1) * c.off := Nat.mul_le_mul_right _ (by omega)
+        have h2 : (i + 1 + c.cap) * c.off ≤ (j + 1) * c.off := Nat.mul_le_mul_right _ (by omega)
+        rw [Nat.add_mul] at h2
+        have hcm : c.off ≤ c.cap * c.off := Nat.le_mul_of_pos_left _ hcap
+        have hd : Done c i lo hi st := inv.late.resolve_right (by omega)
+        exact ⟨by rw [hpan]; exact inv.nopanic, by rw [hsize]; exact inv.size, hwf,
+          fun _ => Or.inl (hdone hd), Or.inl (hdone hd)⟩
+  · have hsame : getTube (retire c st (j : Int)) (i % c.cap) = getTube st (i % c.cap) :=
+      hframe _ (fun h => hslot h.symm)
+    refine ⟨by rw [hpan]; exact inv.nopanic, by rw [hsize]; exact inv.size, ?_, ?_, ?_⟩
+    · rw [hsame]; intro h; have := inv.wf h; omega
+    · intro hr; rw [hsame]; exact (inv.run hr).imp hdone id
+    · rcases inv.late with hd | hle
+      · exact Or.inl (hdone hd)
+      · right
+        have hne : j ≠ i := fun h => hslot (by rw [h])
+        rcases Nat.lt_or_gt_of_ne hne with hlt | hgt
+        · have h1 : (j + 1 + 1) * c.off ≤ (i + 1) * c.off := Nat.mul_le_mul_right _ (by omega)
+          rw [Nat.add_mul (j + 1) 1, Nat.one_mul] at h1
+          omega
+        · have h1 : (i + 1 + 1) * c.off ≤ (j + 1) * c.off := Nat.mul_le_mul_right _ (by omega)
+          rw [Nat.add_mul (i + 1) 1, Nat.one_mul] at h1
+          omega
+
+/-! ### one callback of the scan: common k-mers, then the ticker -/
+
+/-- query position of the `j`-th tick (`j = 0, 1, …`) -/
+def tickPos (c : Cfg) (j : Nat) : Nat := (j + 1) * c.off + c.maxError - 1
+
+theorem tickPos_succ {c : Cfg} (w : WF c) (j : Nat) : tickPos c (j + 1) = tickPos c j + c.off := by
+  unfold tickPos
+  have := w.off_pos
+  have h : 1 ≤ (j + 1) * c.off := Nat.mul_pos (by omega) this
+  rw [Nat.add_mul (j + 1) 1, Nat.one_mul]; omega
+
+theorem tickPos_lt {c : Cfg} (w : WF c) {j j' : Nat} (h : j < j') : tickPos c j < tickPos c j' := by
+  induction h with
+  | refl => rw [tickPos_succ w]; have := w.off_pos; omega
+  | step _ ih => rw [tickPos_succ w]; omega
+
+theorem tickPos_inj {c : Cfg} (w : WF c) {j j' : Nat} (h : tickPos c j = tickPos c j') : j = j' := by
+  rcases Nat.lt_trichotomy j j' with h1 | h1 | h1
+  · have := tickPos_lt w h1; omega
+  · exact h1
+  · have := tickPos_lt w h1; omega
+
+/-- with the repaired rule the tick at `tickPos j` retires tube `j` -/
+theorem tubeEndIndex_tick {c : Cfg} (w : WF c) (j : Nat) : tubeEndIndex c (tickPos c j) = (j : Int) := by
+  unfold tubeEndIndex tickPos
+  simp only [w.rule, if_true]
+  have hoff := w.off_pos
+  have h1 : 1 ≤ (j + 1) * c.off := Nat.mul_pos (by omega) hoff
+  have hcast : ((c.tlen : Int) - ((c.tlen : Int) - 1) + ((((j + 1) * c.off + c.maxError - 1 : Nat) : Int) - 1) - (c.maxError : Int))
+      = (((j + 1) * c.off - 1 : Nat) : Int) := by omega
+  rw [hcast]
+  have hdiv : ((j + 1) * c.off - 1) / c.off = j := by
+    apply Nat.div_eq_of_lt_le
+    · rw [Nat.add_mul, Nat.one_mul] at h1 ⊢; omega
+    · rw [Nat.add_mul, Nat.one_mul]; omega
+  show (((((j + 1) * c.off - 1) / c.off : Nat)) : Int) = j
+  rw [hdiv]
+
+/-- the invariant of the loop over the callbacks: the monitor and the ticker -/
+structure LInv (c : Cfg) (i lo hi m qi : Nat) (l : Loop) (p r : Nat) : Prop where
+  minv : MInv c i lo hi m qi l.st p r
+  tick : ∃ j, l.ticker = ((tickPos c j : Nat) : Int) + 1 - p ∧ p ≤ tickPos c j ∧ ∀ j', j' < j → tickPos c j' < p
+
+theorem MInv_next (c : Cfg) (i lo hi m qi : Nat) (st : St) (p r : Nat) (inv : MInv c i lo hi m qi st p r)
+    (hne : p ≠ qi) : MInv c i lo hi m qi st (p + 1) r :=
+  ⟨inv.nopanic, inv.size, fun h => by have := inv.wf h; omega, inv.run, inv.late.imp id (by omega)⟩
+
+/-- after the common k-mers of position `p` (state `st1`), the ticker -/
+theorem ticker_step {c : Cfg} (w : WF c) (i lo hi m qi : Nat) (l : Loop) (st1 : St) (p r : Nat)
+    (htick : ∃ j, l.ticker = ((tickPos c j : Nat) : Int) + 1 - p ∧ p ≤ tickPos c j ∧ ∀ j', j' < j → tickPos c j' < p)
+    (inv : MInv c i lo hi m qi st1 p r)
+    (hthr : (m : Int) ≥ c.minKmers) (hm1 : 1 ≤ m)
+    (hband : i * c.off ≤ c.tlen + lo) (hlohi : lo ≤ hi) (hqi : qi = tickPos c i)
+    (hhiq : hi ≤ qi) (hr_all : hi ≤ p → r = m) (hr_none : 1 ≤ r → lo ≤ p) :
+    LInv c i lo hi m qi
+      (if l.ticker - 1 = 0 then { st := tubeEnd c st1 p, ticker := c.off } else { st := st1, ticker := l.ticker - 1 })
+      (p + 1) r := by
+  obtain ⟨j, hj1, hj2, hj3⟩ := htick
+  by_cases hfire : p = tickPos c j
+  · rw [if_pos (by omega)]
+    constructor
+    · show MInv c i lo hi m qi (tubeEnd c st1 p) (p + 1) r
+      unfold tubeEnd
+      rw [hfire, tubeEndIndex_tick w j, ← hfire]
+      exact retire_step w i lo hi m qi st1 p r j inv hfire hthr hm1 hband hlohi hqi hhiq hr_all hr_none
+    · refine ⟨j + 1, ?_, ?_, ?_⟩
+      · show (c.off : Int) = _
+        rw [tickPos_succ w]; omega
+      · rw [tickPos_succ w]; have := w.off_pos; omega
+      · intro j' hj'
+        by_cases h : j' = j
+        · subst h; omega
+        · have := hj3 j' (by omega); omega
+  · rw [if_neg (by omega)]
+    constructor
+    · show MInv c i lo hi m qi st1 (p + 1) r
+      apply MInv_next c i lo hi m qi st1 p r inv
+      intro hpq
+      -- p = tickPos i would be the next tick position
+      rw [hqi] at hpq
+      rcases Nat.lt_trichotomy i j with h | h | h
+      · have := hj3 i h; omega
+      · subst h; exact hfire hpq
+      · have := tickPos_lt w h; omega
+    · exact ⟨j, by show l.ticker - 1 = _; omega, by omega, fun j' hj' => by have := hj3 j' hj'; omega⟩
+
+/-! ### the shared k-mers of the match along the scan -/
+
+/-- number of shared positions below `N` -/
+def R (sh : Nat → Bool) (N : Nat) : Nat := (List.range N).countP sh
+
+theorem R_succ (sh : Nat → Bool) (N : Nat) : R sh (N + 1) = R sh N + (if sh N then 1 else 0) := by
+  unfold R; rw [List.range_succ, List.countP_append, List.countP_singleton]
+
+theorem R_mono (sh : Nat → Bool) {N N' : Nat} (h : N ≤ N') : R sh N ≤ R sh N' := by
+  induction h with
+  | refl => exact Nat.le_refl _
+  | step _ ih => rw [R_succ]; omega
+
+/-- the shared positions lie in `[lo, hi]`, `lo` and `hi` are shared, there are `m` of them -/
+structure Shared (sh : Nat → Bool) (lo hi m : Nat) : Prop where
+  range : ∀ p, sh p = true → lo ≤ p ∧ p ≤ hi
+  first : sh lo = true
+  last : sh hi = true
+  total : m = R sh (hi + 1)
+
+theorem Shared.R_pos {sh : Nat → Bool} {lo hi m : Nat} (s : Shared sh lo hi m) (N : Nat) (h : 1 ≤ R sh N) : lo < N := by
+  induction N with
+  | zero => simp [R] at h
+  | succ N ih =>
+    rw [R_succ] at h
+    by_cases hs : sh N = true
+    · have := (s.range N hs).1; omega
+    · simp [hs] at h; have := ih h; omega
+
+theorem Shared.R_after {sh : Nat → Bool} {lo hi m : Nat} (s : Shared sh lo hi m) (N : Nat) (h : hi < N) : R sh N = m := by
+  induction N with
+  | zero => omega
+  | succ N ih =>
+    by_cases hN : N = hi
+    · rw [hN, s.total]
+    · rw [R_succ, ih (by omega)]
+      have : ¬ sh N = true := fun hs => by have := (s.range N hs).2; omega
+      simp [this]
+
+theorem Shared.R_before {sh : Nat → Bool} {lo hi m : Nat} (s : Shared sh lo hi m) (N : Nat) (h : N ≤ hi) : R sh N < m := by
+  have h1 := R_mono sh h
+  have h2 := R_succ sh hi
+  rw [s.last] at h2
+  rw [s.total]; simp at h2; omega
+
+theorem Shared.R_zero {sh : Nat → Bool} {lo hi m : Nat} (s : Shared sh lo hi m) (N : Nat) (h0 : R sh N = 0)
+    (hs : sh N = true) : N = lo := by
+  have hlo := (s.range N hs).1
+  apply Classical.byContradiction; intro hne
+  have h1 := R_mono sh (show lo + 1 ≤ N by omega)
+  rw [R_succ, s.first] at h1
+  simp at h1; omega
+
+theorem Shared.R_last {sh : Nat → Bool} {lo hi m : Nat} (s : Shared sh lo hi m) (N : Nat) (h1 : R sh N + 1 = m)
+    (hs : sh N = true) : N = hi := by
+  have hhi := (s.range N hs).2
+  apply Classical.byContradiction; intro hne
+  have h2 := R_mono sh (show N + 1 ≤ hi by omega)
+  have h3 := R_succ sh hi
+  have h4 := R_succ sh N
+  rw [s.last] at h3; rw [hs] at h4
+  rw [s.total] at h1; simp at h3 h4; omega
+
+/-! ### the whole scan -/
+
+/-- the loop of `Filter` over the callbacks for query positions `0 … N-1`; `ts p` are the target
+    positions of the k-mer at query position `p` -/
+def scanN (c : Cfg) (ts : Nat → List Nat) (l0 : Loop) (N : Nat) : Loop :=
+  ((List.range N).map fun p => (p, ts p)).foldl (fun l call => onKmer c l call.1 call.2) l0
+
+theorem scanN_succ (c : Cfg) (ts : Nat → List Nat) (l0 : Loop) (N : Nat) :
+    scanN c ts l0 (N + 1) = onKmer c (scanN c ts l0 N) N (ts N) := by
+  unfold scanN; rw [List.range_succ, List.map_append, List.foldl_append]; rfl
+
+/-- what the match needs from the scan: every shared position `p` has its target position
+    `tstar p` among the target positions of the k-mer at `p`, on the match's tube, not cut -/
+structure Events (c : Cfg) (i : Nat) (sh : Nat → Bool) (tstar : Nat → Nat) (ts : Nat → List Nat) : Prop where
+  bound : ∀ p t, t ∈ ts p → t < c.tlen
+  mem : ∀ p, sh p = true → tstar p ∈ ts p
+  cut : ∀ p, sh p = true → selfCut c (tstar p) p = false
+  tube : ∀ p, sh p = true → tubeIndex c (diagIndex c (tstar p) p) = i
+
+theorem scan_inv {c : Cfg} (w : WF c) (i lo hi m : Nat) (sh : Nat → Bool) (tstar : Nat → Nat)
+    (ts : Nat → List Nat) (l0 : Loop)
+    (hs : Shared sh lo hi m) (he : Events c i sh tstar ts)
+    (hthr : (m : Int) ≥ c.minKmers) (hm1 : 1 ≤ m) (hD : (hi : Int) - lo ≤ c.maxKmerDist)
+    (hband : i * c.off ≤ c.tlen + lo) (hhiq : hi ≤ tickPos c i)
+    (h0 : LInv c i lo hi m (tickPos c i) l0 0 0) (N : Nat) :
+    LInv c i lo hi m (tickPos c i) (scanN c ts l0 N) N (R sh N) := by
+  have hlohi : lo ≤ hi := (hs.range lo hs.first).2
+  induction N with
+  | zero => exact h0
+  | succ N ih =>
+    rw [scanN_succ, R_succ]
+    unfold onKmer
+    simp only []
+    have hrle : R sh N ≤ m := by
+      rcases Nat.lt_or_ge hi N with h | h
+      · rw [hs.R_after N h]; exact Nat.le_refl _
+      · exact Nat.le_of_lt (hs.R_before N h)
+    by_cases hsh : sh N = true
+    · -- position N carries a shared k-mer
+      rw [if_pos hsh]
+      have hr := hs.R_before N (hs.range N hsh).2
+      have inv1 := fold_shared w i lo hi m (tickPos c i) N (R sh N) (ts N) (scanN c ts l0 N).st (tstar N)
+        (he.bound N) (he.mem N hsh) ih.minv hthr hD hband hlohi rfl (he.cut N hsh) (he.tube N hsh) hr
+        (fun h => hs.R_zero N h hsh) (fun h => hs.R_last N h hsh) (hs.range N hsh).1 (hs.range N hsh).2
+      apply ticker_step w i lo hi m (tickPos c i) _ _ N (R sh N + 1) ih.tick inv1 hthr hm1 hband hlohi rfl hhiq
+      · intro h
+        have : N = hi := by have := (hs.range N hsh).2; omega
+        have h2 := hs.R_after (N + 1) (by omega)
+        rw [R_succ, hsh] at h2; simpa using h2
+      · intro _; exact (hs.range N hsh).1
+    · rw [if_neg hsh, Nat.add_zero]
+      have inv1 := fold_pres w i lo hi m (tickPos c i) N (R sh N) (ts N) (scanN c ts l0 N).st
+        (he.bound N) ih.minv hthr hD hband hlohi rfl hrle
+        (fun h => Nat.le_of_lt (hs.R_pos N h))
+        (fun h => by
+          apply Classical.byContradiction; intro hn
+          have := hs.R_after N (by omega); omega)
+        (fun h => by
+          apply Classical.byContradiction; intro hn
+          have := hs.R_before N (by omega); omega)
+      apply ticker_step w i lo hi m (tickPos c i) _ _ N (R sh N) ih.tick inv1 hthr hm1 hband hlohi rfl hhiq
+      · intro h
+        have hne : N ≠ hi := fun hN => hsh (by rw [hN]; exact hs.last)
+        have h2 := hs.R_after (N + 1) (by omega)
+        rw [R_succ] at h2; simp [hsh] at h2; exact h2
+      · intro h; exact Nat.le_of_lt (hs.R_pos N h)
+
 end Biogo.Proofs.FilterRun
